@@ -8,15 +8,15 @@ BASELINE = ("cd /repo && /venv/bin/python -m pytest -ra -q -p no:cacheprovider -
             "--continue-on-collection-errors")
 
 CHECKS = {
-    "C06": dict(level="exploration", design="1/C06",
+    "C06": dict(sanitize=True, level="exploration", design="1/C06",
                 technique="property-based testing: generated operation histories + heartbeat cadence model, oracle = own parser of the binary format (round trip against recorded live state)",
                 text="Hypothesis-generated histories (add/remove/remove-all/switch/reset integrator/settings/variations) with manual snapshots, and automatic interval/step cadence runs; every loaded snapshot's field map must equal the map recorded from the live simulation when it was written; count, times and cadence checked against a model of the documented rule. Exploration: no counterexample among the generated histories counted in evidence.",
                 note="Trusts: reb_simulation_save_to_stream as the observation of live state (content parsed by the harness's own format parser), Python heartbeat as observation of step boundaries. Pointer members, padding, walltime and the callbacks-used flag are not state."),
-    "C05": dict(level="exploration", design="1/C05",
+    "C05": dict(sanitize=True, level="exploration", design="1/C05",
                 technique="property-based testing: generated simulations x option lattice x save method (file/pickle/bytes/copy) round trip + differential continuation of original vs restored",
                 text="Hypothesis-generated simulations over the documented option lattice with every documented user-settable option drawn non-default, advanced to generated save points (unsynchronised, after mergers, adaptive mid-run, variational/MEGNO), restored by four routes, callbacks re-attached by name; persisted field maps must be identical, every set option must read back, and original and restored must stay bitwise equal over a generated continuation. Exploration: no counterexample among the cases counted in evidence.",
                 note="Trusts the harness's own parser of the binary format and the ctypes mirror for reading options back (C18 checks the mirror). Pointer members, padding, walltime, the callbacks-used flag and never-assigned members of ri_whfast.p_jh (ax..az, r, last_collision, hash) are not persisted quantities. TRACE with dt<0 is skipped (known finding under C08)."),
-    "C17": dict(level="exploration", design="1/C17",
+    "C17": dict(sanitize=True, level="exploration", design="1/C17",
                 technique="property-based testing: generated states; copy/pickle/snapshot equality + interleaved differential evolution; exhaustive per-state single-field mutation through the exported descriptor table against compare",
                 text="For generated states (all integrators mid-run, unsynchronised, variational/MEGNO, mergers, tree) a copy, pickle, byte stream and file snapshot must compare equal to the source in both argument orders, stay bitwise equal under a generated interleaving of operations on copy and source, and operations on one must leave the other's field map untouched. For every persisted field present in a state (descriptor list enumerated per state) a one-bit / one-element / shorter / absent mutation of a copy must be reported by compare, walltime fields must not; random public-API edits must be reported iff the harness's own field maps differ. Exploration over generated states; the field enumeration is complete per state.",
                 note="Trusts the exported descriptor table for offsets and the harness's own format parser as the definition of persisted content. Callbacks are re-attached on the copy before comparing (the callbacks-used flag is persisted). Numeric (not bit) equality of doubles is accepted from compare: -0.0 vs 0.0 is not counted as a difference, NaN states are not generated. With a tree the particle order is not part of the state."),
@@ -47,7 +47,8 @@ def main():
         checks.append({
             "property_id": pid,
             "quick_cmd": "./check %s --tier quick" % pid,
-            "thorough_cmd": "./check %s --tier thorough" % pid,
+            "thorough_cmd": ("./check %s --tier quick --sanitize && ./check %s --tier thorough" % (pid, pid))
+            if c.get("sanitize") else "./check %s --tier thorough" % pid,
             "evidence_file": "/verif/evidence/%s.json" % pid,
             "replay_cmd_template": "./check %s --replay {path}" % pid,
             "engine": "vf",
